@@ -42,6 +42,8 @@ type leg struct {
 }
 
 var checks = map[string]checkSpec{
+	"C09": {modDir: repoDir, pkg: "./internal/counter", test: "TestVerifC09", quickS: 150, thoroS: 1200, gomaxp: "2", floor: 20000, minClass: 20,
+		extra: []leg{{repoDir, "./internal/upload", "TestVerifC09Upload", 0}}},
 	"C08": {modDir: repoDir, pkg: "./internal/upload", test: "TestVerifC08", quickS: 240, thoroS: 1500, gomaxp: "2", floor: 3000, minClass: 8},
 	"C07": {modDir: repoDir, pkg: "./internal/upload", test: "TestVerifC07", quickS: 200, thoroS: 1500, gomaxp: "2", floor: 3000, minClass: 8},
 	"C02": {modDir: repoDir, pkg: "./internal/upload", test: "TestVerifC02", quickS: 150, thoroS: 1200, gomaxp: "2", floor: 4000, minClass: 8,
